@@ -1,6 +1,6 @@
 import NA.Model.AsaEngine
 import NA.Spec.AsaDev
-import NA.Proofs.F1Sem
+import NA.Proofs.F1Check
 import NA.Core.IOUtil
 /-!
 Driver `nadrv-c01`: the ASA diff engine on fragment F1 (NA/Model/AsaEngine.lean) and the strict
@@ -16,7 +16,7 @@ Input: one case per line, tab separated `key=value` fields
   sg  Myers scripts of group pairs  (same; on the sorted member lists)
 Output: tab separated
   rej=1                         checkASAInterfaces fails
-  rej=0 valid=… script=l1|l2|…  hits=h:n,…  exec=ok|rejected@k:why  final=<view>  left=<left-over objects>
+  rej=0 valid=… wf=… k1=… k2=… iso=… script=l1|l2|…  hits=h:n,…  exec=ok|rejected@k:why  final=<view>  left=<left-over objects>
 -/
 namespace NA.Drv.C01
 open NA.F1 NA.IOUtil
@@ -118,6 +118,10 @@ def answer (line : String) : String :=
       "wf=" ++ (if wfB e && refsClosedA e && refsClosedB e then "1" else "0"),
       -- hypothesis of the end-to-end theorem `asa_F1_converges_partial` (class K1)
       "k1=" ++ (if k1Check a b sc then "1" else "0"),
+      -- hypothesis of `asa_F1_converges`, `asa_F1_unchanged_only_if_equivalent`, `asa_F1_resume_partial` (class K2)
+      "k2=" ++ (if k2Check a b sc then "1" else "0:" ++ k2Why a b sc),
+      -- hypothesis of `asa_F1_iso_quiet` / second half of `asa_F1_idempotent_partial` (class ISO, static)
+      "iso=" ++ (if isoCheck a b sc then "1" else "0:" ++ isoWhy a b sc),
       "script=" ++ "|".intercalate lines,
       "hits=" ++ countHits r.hits,
       "exec=" ++ exec,
